@@ -70,9 +70,17 @@ static std::string textReport(const RSForm& f) {
   return out;
 }
 
+// "a schema freshly built from the same content": every record loaded into an EMPTY schema (same uids, aliases, kinds,
+// definitions, texts, same list order), then analysed once. A copy of `f` would carry f's cached analysis with it
+// (seeded change C07-4: a reset that forgets one field of the per-constituent cache is invisible on a copy).
+static RSForm freshFrom(const RSForm& f) {
+  RSForm fresh;
+  for (const auto uid : f.List()) fresh.Load(f.Core().AsRecord(uid));
+  fresh.UpdateState();
+  return fresh;
+}
 static std::string scratchOracle(const RSForm& f) {
-  RSForm copy = f;
-  copy.UpdateState();
+  const RSForm copy = freshFrom(f);
   const auto a = fullReport(f), b = fullReport(copy);
   if (a != b) {
     // first differing line
